@@ -219,41 +219,84 @@ pub fn source_feasible(m: &Model, env: &IndexMap<String, f64>) -> Option<bool> {
 pub struct Row { pub a: Vec<f64>, pub cmp: i8, pub b: f64 } // cmp: -1 <=, 0 =, 1 >=
 
 /// Fourier-Motzkin: feasibility of rows over n free real variables; also the range of `obj . x + c0`.
-/// Returns None if infeasible, Some((min,max)) of the objective otherwise (may be infinite).
-pub fn fm_range(rows: &[Row], n: usize, obj: &[f64], c0: f64) -> Option<(f64, f64)> {
-    // variables 0..n plus t = obj.x + c0 as variable n (eliminated last, i.e. never)
-    let mut ineqs: Vec<(Vec<f64>, f64)> = Vec::new(); // a.x <= b over n+1 vars
-    let push = |ineqs: &mut Vec<(Vec<f64>, f64)>, a: Vec<f64>, b: f64| ineqs.push((a, b));
+/// Returns Err(()) when the elimination grows too large to finish (the caller must then skip the case),
+/// Ok(None) if infeasible, Ok(Some((min,max))) of the objective otherwise (may be infinite).
+pub fn fm_range_checked(rows: &[Row], n: usize, obj: &[f64], c0: f64) -> Result<Option<(f64, f64)>, ()> {
+    let mut ineqs: Vec<(Vec<f64>, f64)> = Vec::new(); // a.x <= b over n+1 vars (last = objective value t)
     for r in rows {
         let mut a = r.a.clone(); a.push(0.0);
-        if r.cmp <= 0 { push(&mut ineqs, a.clone(), r.b); }
-        if r.cmp >= 0 { push(&mut ineqs, a.iter().map(|x| -x).collect(), -r.b); }
+        if r.cmp <= 0 { ineqs.push((a.clone(), r.b)); }
+        if r.cmp >= 0 { ineqs.push((a.iter().map(|x| -x).collect(), -r.b)); }
     }
-    // t - obj.x = c0
     let mut a: Vec<f64> = obj.iter().map(|x| -x).collect(); a.push(1.0);
-    push(&mut ineqs, a.clone(), c0);
-    push(&mut ineqs, a.iter().map(|x| -x).collect(), -c0);
+    ineqs.push((a.clone(), c0));
+    ineqs.push((a.iter().map(|x| -x).collect(), -c0));
     let eps = 1e-9;
     for v in 0..n {
         let mut pos = Vec::new(); let mut neg = Vec::new(); let mut zero = Vec::new();
         for (a, b) in ineqs.into_iter() {
             if a[v] > eps { pos.push((a, b)); } else if a[v] < -eps { neg.push((a, b)); } else { zero.push((a, b)); }
         }
+        if pos.len() * neg.len() + zero.len() > 60000 { return Err(()); }
         for (pa, pb) in &pos { for (na, nb) in &neg {
             let (cp, cn) = (pa[v], -na[v]);
-            let a: Vec<f64> = (0..=n).map(|j| pa[j] / cp + na[j] / cn).collect();
+            let a: Vec<f64> = (0..=n).map(|j| if j == v { 0.0 } else { pa[j] / cp + na[j] / cn }).collect();
             zero.push((a, pb / cp + nb / cn));
         } }
-        if zero.len() > 4000 { zero.truncate(4000); }
+        // drop exact duplicates and trivially true rows to keep the system small
+        zero.retain(|(a, b)| !(a.iter().all(|c| c.abs() <= eps) && *b >= 0.0));
+        zero.sort_by(|x, y| x.0.partial_cmp(&y.0).unwrap_or(std::cmp::Ordering::Equal).then(x.1.partial_cmp(&y.1).unwrap_or(std::cmp::Ordering::Equal)));
+        zero.dedup_by(|x, y| x.0 == y.0 && x.1 >= y.1 - 1e-12 && { true });
         ineqs = zero;
     }
     let (mut lo, mut hi) = (f64::NEG_INFINITY, f64::INFINITY);
     for (a, b) in &ineqs {
         let c = a[n];
-        if c > eps { hi = hi.min(b / c); } else if c < -eps { lo = lo.max(b / c); } else if *b < -1e-7 { return None; }
+        if c > eps { hi = hi.min(b / c); } else if c < -eps { lo = lo.max(b / c); } else if *b < -1e-7 { return Ok(None); }
     }
-    if lo > hi + 1e-7 { return None; }
-    Some((lo, hi))
+    if lo > hi + 1e-7 { return Ok(None); }
+    Ok(Some((lo, hi)))
+}
+pub fn fm_range(rows: &[Row], n: usize, obj: &[f64], c0: f64) -> Option<(f64, f64)> {
+    fm_range_checked(rows, n, obj, c0).unwrap_or(Some((f64::NAN, f64::NAN)))
+}
+
+/// Solve A_S x_S = b for the column subset S by Gaussian elimination; Some(x) iff the solution exists and is unique.
+pub fn solve_subset(rows: &[(Vec<f64>, f64)], cols: &[usize]) -> Option<Vec<f64>> {
+    let m = rows.len(); let k = cols.len();
+    let mut aug: Vec<Vec<f64>> = rows.iter().map(|(c, b)| { let mut r: Vec<f64> = cols.iter().map(|j| c[*j]).collect(); r.push(*b); r }).collect();
+    let mut piv_row = 0; let mut piv_of_col = vec![usize::MAX; k];
+    for col in 0..k {
+        let mut best = piv_row; let mut bv = 0.0;
+        for r in piv_row..m { if aug[r][col].abs() > bv { bv = aug[r][col].abs(); best = r; } }
+        if bv < 1e-9 { return None; } // not full column rank: not a unique solution
+        aug.swap(piv_row, best);
+        let p = aug[piv_row][col];
+        for j in 0..=k { aug[piv_row][j] /= p; }
+        for r in 0..m { if r != piv_row { let f = aug[r][col]; if f != 0.0 { for j in 0..=k { aug[r][j] -= f * aug[piv_row][j]; } } } }
+        piv_of_col[col] = piv_row; piv_row += 1;
+        if piv_row > m { return None; }
+    }
+    for r in piv_row..m { if aug[r][k].abs() > 1e-7 { return None; } } // inconsistent
+    Some((0..k).map(|c| aug[piv_of_col[c]][k]).collect())
+}
+
+/// Minimum of obj over all basic feasible solutions of {A x = b, x >= 0} (None if there is none).
+pub fn best_vertex(rows: &[(Vec<f64>, f64)], nvars: usize, obj: &[f64], feas_tol: f64) -> Option<(f64, Vec<f64>)> {
+    let mut best: Option<(f64, Vec<f64>)> = None;
+    let m = rows.len();
+    for mask in 0u32..(1u32 << nvars) {
+        let cols: Vec<usize> = (0..nvars).filter(|j| (mask >> j) & 1 == 1).collect();
+        if cols.len() > m { continue; }
+        if let Some(xs) = solve_subset(rows, &cols) {
+            if xs.iter().any(|v| *v < -feas_tol) { continue; }
+            let mut x = vec![0.0; nvars];
+            for (c, v) in cols.iter().zip(xs.iter()) { x[*c] = *v; }
+            let o: f64 = obj.iter().zip(x.iter()).map(|(a, b)| a * b).sum();
+            if best.as_ref().map_or(true, |(bo, _)| o < *bo) { best = Some((o, x)); }
+        }
+    }
+    best
 }
 
 pub struct LinSide<'a> { pub l: &'a LinearModel, pub decl_idx: Vec<(usize, String)>, pub bool_aux: Vec<usize>, pub cont_aux: Vec<usize> }
@@ -313,7 +356,8 @@ impl<'a> LinSide<'a> {
             let mut c0 = l.objective_offset();
             for (i, c) in l.objective().iter().enumerate() { if !self.cont_aux.contains(&i) { c0 += c * x[i]; } }
             let obj: Vec<f64> = self.cont_aux.iter().map(|i| l.objective()[*i]).collect();
-            if let Some((lo, hi)) = fm_range(&rows, nc, &obj, c0) {
+            let fm = match fm_range_checked(&rows, nc, &obj, c0) { Ok(x) => x, Err(()) => return Some(f64::NAN) };
+            if let Some((lo, hi)) = fm {
                 let v = match dirsign { -1 => lo, 1 => hi, _ => lo };
                 best = Some(match best { None => v, Some(bv) => match dirsign { -1 => bv.min(v), 1 => bv.max(v), _ => bv } });
                 if dirsign == 0 { return best; }
